@@ -1,5 +1,8 @@
-//! Graph specifications shared by all engines: a graph is always "these reads through the
-//! real pipeline", never hand-built.
+//! Graph specifications shared by all engines. A graph is "these reads through the real
+//! pipeline"; for index properties (C19) it may instead be a free-form node set handed to
+//! the public `BaseGraph::add` (arbitrary substrings of generated reads with distinct
+//! terminal k-mers) - the index must be exact for any node set a caller can build, and
+//! pipeline-built graphs never contain e.g. a palindromic k-mer at the end of a longer node.
 
 use crate::dna::{self, GenCfg};
 use crate::rng::Rng;
@@ -36,6 +39,50 @@ pub struct GraphSpec {
     pub stranded: bool,
     pub min_count: usize,
     pub reads: Vec<Vec<u8>>,
+    /// when non-empty: node sequences (with extension bytes) added directly with BaseGraph::add
+    #[serde(default)]
+    pub direct_nodes: Vec<(Vec<u8>, u8)>,
+}
+
+/// Free-form node set: random substrings of the reads, terminal k-mers distinct per side.
+pub fn gen_direct_nodes(rng: &mut Rng, reads: &[Vec<u8>], k: usize, max_nodes: usize) -> Vec<(Vec<u8>, u8)> {
+    use std::collections::BTreeSet;
+    let mut firsts: BTreeSet<Vec<u8>> = BTreeSet::new();
+    let mut lasts: BTreeSet<Vec<u8>> = BTreeSet::new();
+    let mut out = Vec::new();
+    let long: Vec<&Vec<u8>> = reads.iter().filter(|r| r.len() >= k).collect();
+    if long.is_empty() {
+        return out;
+    }
+    let tries = max_nodes * 4;
+    for _ in 0..tries {
+        if out.len() >= max_nodes {
+            break;
+        }
+        let r = *rng.pick(&long);
+        let len = match rng.below(3) {
+            0 => k,
+            1 => rng.range(k, k + 3),
+            _ => rng.range(k, k + 24),
+        }
+        .min(r.len());
+        let start = rng.below(r.len() - len + 1);
+        let mut seq = r[start..start + len].to_vec();
+        if rng.chance(1, 4) {
+            seq = dna::rc(&seq);
+        }
+        let f = seq[..k].to_vec();
+        let l = seq[len - k..].to_vec();
+        if firsts.contains(&f) || lasts.contains(&l) {
+            continue;
+        }
+        firsts.insert(f);
+        lasts.insert(l);
+        // extension bits: the true flanking bases when available, else random
+        let exts = if rng.chance(1, 2) { rng.below(256) as u8 } else { 0xff };
+        out.push((seq, exts));
+    }
+    out
 }
 
 pub fn gen_graph_spec(rng: &mut Rng, ktypes: &[&str], max_reads: usize, max_len: usize) -> GraphSpec {
@@ -53,11 +100,29 @@ pub fn gen_graph_spec(rng: &mut Rng, ktypes: &[&str], max_reads: usize, max_len:
         stranded: rng.chance(1, 3),
         min_count: if rng.chance(1, 5) { 2 } else { 1 },
         reads,
+        direct_nodes: Vec::new(),
     }
 }
 
 pub fn shrink_graph_spec(g: &GraphSpec) -> Vec<GraphSpec> {
     let mut out = Vec::new();
+    if !g.direct_nodes.is_empty() {
+        for i in 0..g.direct_nodes.len() {
+            let mut x = g.clone();
+            x.direct_nodes.remove(i);
+            if !x.direct_nodes.is_empty() {
+                out.push(x);
+            }
+        }
+        for i in 0..g.direct_nodes.len() {
+            if g.direct_nodes[i].1 != 0 {
+                let mut x = g.clone();
+                x.direct_nodes[i].1 = 0;
+                out.push(x);
+            }
+        }
+        return out;
+    }
     let k = k_of(&g.ktype);
     for i in 0..g.reads.len() {
         let mut x = g.clone();
